@@ -555,7 +555,7 @@ def judge_vf(m, r, k):
             # named predicate: seekable open failed while bisecting and a complete codec_setup_info (a later link's headers) stays behind
             key = 'vf_open_bisect_recursion_failure_leaks_link_headers'
         else:
-            key = f"vf_leak:{stage}:{m['mode']}{m['api']}:open={opn}:ops={opk}={opsrc}:fault={devk}:n={ln}:sizes={k['live']}"
+            key = f"vf_leak:{stage}:{m['mode']}{m['api']}:open={opn}:ops={opk}={opsrc}:fault={devk}:n={ln}:sizes={k['live']}" + (f":file={m['file']}" if m['sub'] == 'synth' else '')
         return 'viol', key, f"{what}: {lb} bytes in {ln} blocks live after ov_clear twice (after the first ov_clear {mid}); {r[:400]}", cls
     nc = [int(x) for x in k['nclose'].split(',')]
     want = 1 if open_ok else 0
@@ -652,7 +652,7 @@ class Run:
             rep = r.split('report=', 1)[1] if 'report=' in r else r[:200]
             kind = rep.split(' ')[0]
             top = (kv(rep).get('top') or '').split(',')
-            libtop = [f for f in top if f and not f.startswith('__') and f not in ('free', 'malloc', 'calloc', 'realloc', 'main', 'run_enc', 'run_dec', 'run_vf') and not f.startswith('wa_')]
+            libtop = [f for f in top if f and not f.startswith('__') and f not in ('thread', 'free', 'malloc', 'calloc', 'realloc', 'main', 'run_enc', 'run_dec', 'run_vf') and not f.startswith('wa_')]
             is_free = any(x in kind for x in FREE_KINDS)
             if is_free or kq.get('stage') == 'clear':
                 # a double / invalid free anywhere, or any crash inside the (repeated) clear calls
